@@ -22,6 +22,11 @@ from .. import sweep
 from .. import symeval as S
 from .c20 import snap, container_ids
 
+
+def _mem(a):
+    """Identity of the storage behind an array value: its cells (views share them), or the object itself."""
+    return a.cell_ids() if isinstance(a, S.Arr) else {id(a)}
+
 # x = 1/4 is a grid node; with M^2 = 30 the Nachtmann point of (1/2, 10) is exactly 1/3 (rho = 2), which is requested as well;
 # thresholds are concrete (1, 25, 10^4 GeV^2) so that Q2 = 30 has one more active flavour than Q2 = 10, 20
 POINTS = [(Fraction(1, 4), 20), (Fraction(1, 2), 10), (Fraction(1, 4), 20), (Fraction(1, 3), 10), (Fraction(3, 4), 30), (Fraction(1, 4), 10)]
@@ -135,19 +140,20 @@ def _unit(unit):
                 continue
             for v in pt.attrs["orders"].values():
                 for a in v:
-                    if id(a) in seen_arrays and seen_arrays[id(a)] != n_:
-                        problems.append("two points of one output share an array (editing one result changes another)")
-                    seen_arrays[id(a)] = n_
+                    for cid in _mem(a):
+                        if cid in seen_arrays and seen_arrays[cid] != n_:
+                            problems.append("two points of one output share array memory (editing one result changes another)")
+                        seen_arrays[cid] = n_
     if hname == "alone":
         shared = set(container_ids(outs[0].store)) & set(container_ids(outs[1].store))
-        arrs0 = {id(a) for pt in outs[0].store[A_] if isinstance(pt, S.ObjVal) for v in pt.attrs["orders"].values() for a in v}
-        arrs1 = {id(a) for pt in outs[1].store[A_] if isinstance(pt, S.ObjVal) for v in pt.attrs["orders"].values() for a in v}
+        arrs0 = {c for pt in outs[0].store[A_] if isinstance(pt, S.ObjVal) for v in pt.attrs["orders"].values() for a in v for c in _mem(a)}
+        arrs1 = {c for pt in outs[1].store[A_] if isinstance(pt, S.ObjVal) for v in pt.attrs["orders"].values() for a in v for c in _mem(a)}
         internal = set()
         sf = runner.attrs["observables"][A_]
         for e in ev_elements(sf):
             r = e.attrs.get("res")
             if isinstance(r, S.ObjVal):
-                internal |= {id(a) for v in r.attrs["orders"].values() for a in v}
+                internal |= {c for v in r.attrs["orders"].values() for a in v for c in _mem(a)}
         if shared or (arrs0 & arrs1) or (arrs0 & internal):
             problems.append("get_result() hands out references to memoised arrays (two calls / the cache share storage)")
     return ("ok", per_point, problems)
